@@ -2,5 +2,5 @@ SPECIFICATION Spec
 CONSTANTS
   Tunnels <- MCTunnels3
   Kind <- MCKind3
-INVARIANTS TypeOK RegistryMutex WriteMutex LoopImpliesRegistered NothingLeftWhenHandlersAreGone AtMostOneDial RelayNeedsConnection ConnectionNeedsRegisteredLoop ConnectionNeedsTheSteps PairingById InOnlyAfterPublish UserIsTheOneItWasOpenedAs ResponseDiscipline
+INVARIANTS TypeOK RegistryMutex WriteMutex LoopImpliesRegistered NothingLeftWhenHandlersAreGone AtMostOneDial RelayNeedsConnection ConnectionNeedsRegisteredLoop ConnectionNeedsTheSteps PairingById InOnlyAfterPublish UserIsTheOneItWasOpenedAs ResponseDiscipline NoWriterBeforeTheAccept
 CHECK_DEADLOCK FALSE
